@@ -219,7 +219,7 @@ def make_torn(rng, tier):
         elif r < 0.98 and 'powerloss' in enabled:
             ops.append({'k': rng.choice(['powerloss', 'powerloss', 'sync']), 't': []})
     # epilogue: faults stop; bounded recovery and repair
-    ops.append({'k': 'heal'})
+    ops.append({'k': 'heal', 'keep_procs': True})
     combos = []
     for op in ops:
         if op['k'] == 'parse' and op['m'] != 'nocache':
@@ -228,7 +228,14 @@ def make_torn(rng, tier):
                 combos.append(key)
     rng.shuffle(combos)
     for (f, g, c) in combos[:3]:
-        ops.append({'k': 'repaircheck', 'p': rng.randrange(cfg['nproc']), 'f': f, 'g': g, 'c': c})
+        p = rng.randrange(cfg['nproc'])
+        if rng.random() < 0.4:
+            # the surviving process itself must be able to save again once faults have stopped
+            ops.extend(_edit_ops(rng, dict(cfg), state, f=f)[-1:])
+            ops[-1].update({'how': 'atomic', 'mt': None, 'dt': 5.0})
+            ops.append({'k': 'repaircheck', 'p': p, 'f': f, 'g': g, 'c': c, 'inproc': True})
+        else:
+            ops.append({'k': 'repaircheck', 'p': p, 'f': f, 'g': g, 'c': c})
     return {'sim': 'cacheworld', 'profile': 'torn', 'config': cfg, 'init': init, 'ops': ops}
 
 
